@@ -45,3 +45,5 @@ def _templates(ctx):
 STRUCTURAL = (globals().get('STRUCTURAL') or []) + [_templates]
 
 VALIDATION = [validate_bs4]
+
+FUNCTIONS = FUNCTIONS + [q for q in CACHE if q not in FUNCTIONS]
